@@ -37,8 +37,9 @@ inductive Inst (mt : Meta) (σ : Subst) : V → V → Prop
   | forDots (t : String) (id : Nat) (fs : List V) (k : Nat) (t' : String) (id' : Nat) (gs : List V) (bi : Nat) (gb : V) :
       forDotsKeyOf t fs = some k → bodyIdxOf t' = some bi → gs[bi]? = some gb → InstNth mt σ fs 4 gb →
       Inst mt σ (.ptr t id fs) (.ptr t' id' gs)
-  | ptr (t : String) (id id' : Nat) (fs gs : List V) : InstList mt σ fs gs →
-      Inst mt σ (.ptr t id fs) (.ptr t id' gs)
+  | ptr (t : String) (id id' : Nat) (fs gs : List V) :
+      (t = "ast.Ident" → mt.look (identName fs) = none) → forDotsKeyOf t fs = none →
+      InstList mt σ fs gs → Inst mt σ (.ptr t id fs) (.ptr t id' gs)
 inductive InstList (mt : Meta) (σ : Subst) : List V → List V → Prop
   | nil : InstList mt σ [] []
   | cons (p g : V) (ps gs : List V) : Inst mt σ p g → InstList mt σ ps gs → InstList mt σ (p :: ps) (g :: gs)
